@@ -18,7 +18,7 @@ CLAUSE = ('OrderedCallGraph values are built only by order(), which is called on
           'multiple_consumers, move_while_borrowed, complex_borrow_check in that order on each other\'s output and returns Err whenever a '
           'pass added diagnostics; OwnershipRelationships::compute maps Move->consumes, SharedBorrow/ExclusiveBorrow->borrows, '
           'HappensBefore->nothing; an input parameter is turned into a reference only if it is never moved and the reference is mutable iff '
-          'some edge is an ExclusiveBorrow (monotone OR); get_expr_for_type marks the binding mutable on the path that emits `&mut`.')
+          'some edge is an ExclusiveBorrow (monotone OR); get_expr_for_type marks the binding mutable on the path that emits `&mut`. The five callable-path renderers for generated code render nested types with (CrateLookup, Erase); no fragment of an opened CanonicalType is compared, hashed or used as a key.')
 TRUSTED = ['each borrow-checking pass is correct on its own (not decided)', 'the body emitter follows the OrderedCallGraph it is given']
 
 BC = PX + 'analyses::call_graph::borrow_checker::'
